@@ -1407,7 +1407,15 @@ class Model(Object):
     def __exit__(self, type, value, traceback) -> None:
         """Pop the top context manager and trigger the undo functions."""
         context = self._contexts.pop()
-        context.reset()
+        # The undo functions call context-aware methods; hide the enclosing
+        # contexts while they run so that undoing is not itself recorded (and
+        # later re-applied) by an outer context.
+        outer_contexts = self._contexts
+        self._contexts = []
+        try:
+            context.reset()
+        finally:
+            self._contexts = outer_contexts
 
     def merge(
         self,
